@@ -6,6 +6,7 @@ import (
 	"strconv"
 
 	"github.com/graphql-go/graphql/language/ast"
+	"github.com/graphql-go/graphql/language/printer"
 )
 
 // normalizeDocument walks the given operation in `doc`, replacing
@@ -79,6 +80,13 @@ func normalizeDocument(schema *Schema, doc *ast.Document, operationName string) 
 		schema:    schema,
 		synthArgs: map[string]interface{}{},
 		newVarDefs: nil,
+	}
+
+	ctx.usedNames = map[string]bool{}
+	for _, vd := range op.VariableDefinitions {
+		if vd != nil && vd.Variable != nil && vd.Variable.Name != nil {
+			ctx.usedNames[vd.Variable.Name.Value] = true
+		}
 	}
 
 	newOp := cloneOperation(op)
@@ -353,12 +361,60 @@ type normCtx struct {
 	counter    int
 	synthArgs  map[string]interface{}
 	newVarDefs []*ast.VariableDefinition
+	byLiteral  map[string]string
+	usedNames  map[string]bool // variable names the operation already defines
+}
+
+// literalInputValue converts a variable-free literal to the value a client
+// would send for it in the variables map.
+func literalInputValue(value ast.Value) interface{} {
+	switch v := value.(type) {
+	case *ast.IntValue:
+		if i, err := strconv.Atoi(v.Value); err == nil {
+			return i
+		}
+		if f, err := strconv.ParseFloat(v.Value, 64); err == nil {
+			return f
+		}
+		return v.Value
+	case *ast.FloatValue:
+		if f, err := strconv.ParseFloat(v.Value, 64); err == nil {
+			return f
+		}
+		return v.Value
+	case *ast.StringValue:
+		return v.Value
+	case *ast.BooleanValue:
+		return v.Value
+	case *ast.EnumValue:
+		return v.Value
+	case *ast.ListValue:
+		out := make([]interface{}, 0, len(v.Values))
+		for _, item := range v.Values {
+			out = append(out, literalInputValue(item))
+		}
+		return out
+	case *ast.ObjectValue:
+		out := map[string]interface{}{}
+		for _, f := range v.Fields {
+			if f == nil || f.Name == nil {
+				continue
+			}
+			out[f.Name.Value] = literalInputValue(f.Value)
+		}
+		return out
+	}
+	return nil
 }
 
 func (c *normCtx) nextName() string {
-	n := fmt.Sprintf("__pcv%d", c.counter)
-	c.counter++
-	return n
+	for {
+		n := fmt.Sprintf("__pcv%d", c.counter)
+		c.counter++
+		if !c.usedNames[n] {
+			return n
+		}
+	}
 }
 
 // normalizeSelectionSet walks selections under the given parent type.
@@ -457,8 +513,22 @@ func (c *normCtx) tryExtract(value ast.Value, expected Input) (ast.Value, bool) 
 		// downstream error against the original literal.
 		return value, false
 	}
+	// The same literal in the same type position always maps to the same
+	// synthetic variable, so repeated selections of one field keep
+	// identical arguments (and stay mergeable).
+	literalKey := fmt.Sprintf("%v\x00%v", expected, printer.Print(value))
+	if name, ok := c.byLiteral[literalKey]; ok {
+		return ast.NewVariable(&ast.Variable{Name: ast.NewName(&ast.Name{Value: name})}), true
+	}
 	name := c.nextName()
-	c.synthArgs[name] = coerced
+	if c.byLiteral == nil {
+		c.byLiteral = map[string]string{}
+	}
+	c.byLiteral[literalKey] = name
+	// Hand the literal over in its input (uncoerced) form: the synthetic
+	// variable goes through variable coercion at execute time, which would
+	// otherwise see enum internal values or parse a custom scalar twice.
+	c.synthArgs[name] = literalInputValue(value)
 	c.newVarDefs = append(c.newVarDefs, ast.NewVariableDefinition(&ast.VariableDefinition{
 		Variable: ast.NewVariable(&ast.Variable{Name: ast.NewName(&ast.Name{Value: name})}),
 		Type:     typeASTFromGoType(expected),
